@@ -26,7 +26,7 @@ ASSUMPTIONS = ['the reference conditions the joint Gaussian in one shot (Cholesk
                '1e-5 of the reported standard deviation, times cond/1e9 beyond that conditioning (prototype agreement 1e-13; worst seen in calibration 2.3e-7 at cond 2.5e9); cases whose innovation covariance has cond > 1e10 are '
                'counted as ill-conditioned and not decided', 'measurement rows are attached to the grid row at or before their epoch, which is '
                'how the filter linearises them']
-REQUIRED_OBS = ['runs', 'grid_points', 'measurement_blocks', 'sd_compared', 'estimates_compared', 'trajectory_compared',
+REQUIRED_OBS = ['samples_accounted', 'runs', 'grid_points', 'measurement_blocks', 'sd_compared', 'estimates_compared', 'trajectory_compared',
                 'innovations_compared', 'midpoint_crosschecked', 'with_walk', 'with_scale_misal', 'two_d', 'off_grid_epochs']
 REQUIRED_CLASSES = {'all': ['3d', '2d']}
 LLA = ['lat', 'lon', 'alt']
@@ -112,6 +112,11 @@ def build(seed, wa):
             e = np.r_[t[j] + dt * rng.uniform(0.05, 0.95, 3), on[:2]]
         if shared is not None and rng.random() < 0.4:
             e = np.r_[e, shared[:2]]
+        if shared is not None and rng.random() < 0.3:
+            # the same epochs as the other receiver logged through another arithmetic (k * 0.1 vs a decimal string): equal to ~1e-15 relative,
+            # not bitwise - still two measurements, both part of the optimal estimate
+            near = shared[-2:] * (1 + 2.0 ** -51)
+            e = np.r_[e, near[(near > t[0]) & (near < t[-1] - dt)]]
         e = np.unique(e)
         shared = e
         off_grid += int((~np.isin(e, t)).sum())
@@ -224,6 +229,20 @@ def run_case(case):
             meas.append(dict(k=k, z=e['z'], H=H, R=e['R']))
             names.append(e['cls'])
     obs['measurement_blocks'] = len(meas)
+    # "for any measurement set": the optimal estimate conditions on EVERY sample in [first, last grid time) - each sensor's processed stamps
+    # must be exactly its samples there (a sample left out leaves a smaller, self-consistent problem the comparison below cannot see)
+    for sn in C['sensors']:
+        st_ = np.asarray(sn.data.index, float)
+        t_end = float(C['nominal'].index[-1])
+        inside = np.sort(st_[(st_ >= grid[0]) & (st_ < t_end)])
+        got = np.sort(np.array([e['time'] for e in ev if e['kind'] == 'compute_matrices' and e['hit'] and e['cls'] == type(sn).__name__], float))
+        obs['samples_accounted'] = obs.get('samples_accounted', 0) + len(inside)
+        if len(got) != len(inside) or not np.array_equal(got, inside):
+            lost = [float(x) for x in inside if x not in set(got.tolist())][:4]
+            out.append(vio('measurement_not_in_estimate', f'{type(sn).__name__}: {len(inside)} samples in [{grid[0]}, {t_end}) but {len(got)} entered the estimate; '
+                           f'left out {lost} (first grid time {grid[0]!r})', config=C['describe']))
+    if out:
+        return dict(violations=out, obs=obs, nontrivial=True)
     xs, Ps, innov, cond = batch_gm.solve(P0, Phis, Qs, meas)
     obs['max_log10_cond_x10'] = int(10 * np.log10(max(cond, 1)))
     if cond > 1e10:
